@@ -75,7 +75,9 @@ var unicodeWords = []string{"café", "naïve", "日本語", "读书", "Ünïcöd
 var lookAlikeWords = []string{"8:00", "-", "9:00", "1h", "-5m", "?", "??", "2020-01-01", "(8h!)", "8:00-?", "<23:00", "0:30>", "100%", "%d", "%s", "%!", "50%o", "12:00am", "#", "#=", "=x", "a#b", "--flag", "\\-45m", "\\n", "24:00", "http://x.io/#top", "https://example.com/a_(b)", "www.example.com", "mailto:me@example.com"}
 var jsonWords = []string{"\"quoted\"", "back\\slash", "a/b", "<tag>", "&amp;", "tab\there", " ", " ", "ctl\u0001x", "\u007f", "𝔘𝔫𝔦", "'single'", "{json}", "[1,2]", "\\u0041", "\b", "\f", "é\"\\",
 	// the spellings an encoder itself produces, as literal text (backslash, u, four hex digits; backslash + letter)
-	"\\u003c", "C:\\users\\u003e", "\\u0026amp", "\\u2028", "\\\\", "\\\"", "\\t", "\\/", "\u2028", "\u2029", "</script>"}
+	"\\u003c", "C:\\users\\u003e", "\\u0026amp", "\\u2028", "\\\\", "\\\"", "\\t", "\\/", "\u2028", "\u2029", "</script>",
+	// text pasted from a coloured terminal: complete escape sequences are data like any other character
+	"\x1b[1;31mURGENT\x1b[0m", "\x1b[0m", "\x1b[2J", "\x1b[38;5;208mwarn", "\x1b]8;;http://x\x1b\\", "\x1b[31"}
 var tagShapes = []string{"#work", "#Work", "#WORK", "#home-office", "#under_score", "#读书", "#Ünï", "#ticket=891", "#ticket=892", "#project=\"22/48.3\"", "#call='Liz Jones'", "#a=1", "#a=2", "#a", "#A=1", "#empty=", "#q=\"\"", "#open=\"unterminated", "#x=y-z", "#mix='it\"s'", "#n=\"it's\"", "#t1", "#t2", "#t3", "#dup", "#dup=v", "#dup=V", "#ort=köln", "#ort=zürich", "#city=\"São Paulo\"", "#名前=値", "#tag=\"日本 語\"", "#emoji=\"😀 ok\"", "#size='5\"'", "#q=\"'tis\"", "#x=\"'\"", "#status= open", "#prio=",
 	// names that extend another name by a character sorting before '=' or after it (row grouping in `tags --values`)
 	"#dup-x", "#dup2", "#dup_x=v", "#a-b", "#a1=3", "#ticket-open", "#ticket2=1", "#t1-a=v", "#t1=w", "#t10"}
@@ -84,6 +86,9 @@ var tagShapes = []string{"#work", "#Work", "#WORK", "#home-office", "#under_scor
 func word(r *core.Rand, o *Opts, out *Out) string {
 	k := r.Intn(100)
 	switch {
+	case o.Tags > 0 && o.JSONHostile && k < 3:
+		out.feat("tags")
+		return r.Pick("#colour=\"\x1b[31\"", "#c='\x1b[1;3'", "#esc=\"\x1b[0m\"", "#e=\"\x1b[\"", "#bell=\"\x07\"")
 	case o.Tags > 0 && k < 12*o.Tags:
 		out.feat("tags")
 		return tagShapes[r.Intn(len(tagShapes))]
@@ -249,6 +254,10 @@ func SpellDuration(r *core.Rand, d ref.DurV) string {
 		body = r.Pick(fmt.Sprintf("%dh", h), fmt.Sprintf("%dh0m", h), fmt.Sprintf("%dh00m", h), fmt.Sprintf("%dm", a))
 	default:
 		body = r.Pick(fmt.Sprintf("%dh%dm", h, m), fmt.Sprintf("%dh%02dm", h, m), fmt.Sprintf("%dm", a), fmt.Sprintf("%dh%dm", h, m))
+	}
+	if r.Chance(1, 40) {
+		// any number of leading zeros is part of the literal syntax: a long literal is not a big amount
+		body = strings.Repeat("0", r.PickInt(1, 5, 18, 22, 30, 60)) + body
 	}
 	return sign + body
 }
